@@ -216,7 +216,7 @@ def analyse(job):
                 if expected_rej is not None and d.get('error') == expected_rej:
                     row['status'] = 'rejected-as-documented'
                 elif d.get('error') in ref.tolerated_rejections(resolver):
-                    row['status'] = 'rejected-placeholder-in-word-rule'
+                    row['status'] = 'rejected-by-stricter-within-word-rule'
                 else:
                     row['status'] = 'unexpected-rejection'
                     res['inconclusive'].append('complgen rejected a clean-by-construction grammar (%s/%s) for %s: %r'
@@ -414,7 +414,7 @@ def analyse_c09(job):
             d = cgv().dump(shell, text)
             d2 = cgv().dump(shell, text2)
             if (not d.get('ok') and d.get('error') in ref.tolerated_rejections(resolver)):
-                row['status'] = 'rejected-placeholder-in-word-rule'
+                row['status'] = 'rejected-by-stricter-within-word-rule'
                 continue
             if not d.get('ok') or d.get('ambiguity') or not d2.get('ok') or d2.get('ambiguity'):
                 row['status'] = 'unexpected-rejection'
